@@ -211,7 +211,7 @@ pub fn conv_ty(t: &Type, adts: &dyn Fn(&str) -> Option<Ty>, generics: &BTreeSet<
             match name.as_str() {
                 "bool" => Ok(Ty::Bool),
                 "Self" => match self_ty {
-                    Some(s) => Ok(Ty::Adt(s.to_string())),
+                    Some(s) => Ok(adts(s).unwrap_or_else(|| Ty::Adt(s.to_string()))),
                     None => Err(unsupported(t, "`Self` outside an impl")),
                 },
                 "Option" => Ok(Ty::Option(Box::new(arg1(seg)?))),
